@@ -184,12 +184,7 @@ impl KernelFeatures {
 }
 
 // placeholders used when a slate's excess / signature cannot be computed yet
-pub uninterp spec fn spec_commit_from_vec(b: Seq<u8>) -> Commitment;
 pub uninterp spec fn spec_sig_from_raw(b: Seq<u8>) -> Signature;
-impl Commitment {
-    #[verifier::external_body]
-    pub fn from_vec(v: Vec<u8>) -> (r: Commitment) ensures r == spec_commit_from_vec(v@) { unimplemented!() }
-}
 impl Signature {
     // secp256k1zkp Signature::from_raw_data(&[u8; 64]): copies the bytes, always Ok
     #[verifier::external_body]
